@@ -64,10 +64,12 @@ package react
 //@   ensures[passes_input] result0 == input && result1 == nil
 
 //@ func NewAgent$4
-//@   props C18
+//@   props C18 C09
 //@   requires toolCallChecker != nil
 //@   ghost isCall bool = false
 //@   ghost chkErr error = nil
+//@   at call toolCallChecker: assert[checker_runs_in_the_context_of_this_run] @C09,C18 arg0 == param0
+//@   note checker_runs_in_the_context_of_this_run: the branch condition is shared by all runs of the agent; the context it hands to the user's tool-call checker must be the one of the current run, not one captured when the agent was built
 //@   after call toolCallChecker: ghost isCall = result0
 //@   after call toolCallChecker: ghost chkErr = result1
 //@   ensures[tools_iff_tool_call] @C18 chkErr == nil ==> err == nil && endNode == (isCall ? nodeKeyTools : compose.END)
